@@ -225,6 +225,36 @@ def simp(t):
             if a[0] != "idx" or b[0] != "idx":
                 return simp(("ite", base[1], a, b))
         return t
+    if h == "mcall" and t[2] == "get" and t[1][0] == "dict" and 1 <= len(t[3]) <= 2 and not t[4] and is_const(t[3][0]) \
+            and all(is_const(k) for k, _ in t[1][1]):
+        hits = [v for k, v in t[1][1] if k == t[3][0]]
+        return hits[-1] if hits else (t[3][1] if len(t[3]) == 2 else C(None))
+    if h == "mcall" and t[2] == "format" and is_const(t[1]) and isinstance(t[1][1], str) and not t[4] and not any(a[0] == "star" for a in t[3]):
+        # "a{}b{}".format(x, y) == "a" + str(x) + "b" + str(y)   (plain fields only)
+        import string
+        try:
+            parts = list(string.Formatter().parse(t[1][1]))
+        except ValueError:
+            return t
+        out, auto, okf = C(""), 0, True
+        for lit, field, spec, conv in parts:
+            if lit:
+                out = simp(("strcat", out, C(lit)))
+            if field is None:
+                continue
+            if spec or conv or not (field == "" or field.isdigit()):
+                okf = False
+                break
+            k = auto if field == "" else int(field)
+            auto += 1
+            if k >= len(t[3]):
+                okf = False
+                break
+            a = t[3][k]
+            out = simp(("strcat", out, a if (is_const(a) and isinstance(a[1], str)) else ("call", "str", (a,), ())))
+        if okf:
+            return out
+        return t
     if h == "mcall" and t[2] == "join" and is_const(t[1]) and isinstance(t[1][1], str) and len(t[3]) == 1 and not t[4]:
         arg = t[3][0]
         if arg[0] in ("list", "tup"):
@@ -235,6 +265,12 @@ def simp(t):
         if arg[0] == "ite":
             return simp(("ite", arg[1], simp(("mcall", t[1], "join", (arg[2],), ())), simp(("mcall", t[1], "join", (arg[3],), ()))))
         return t
+    if h == "flatten" and t[1][0] in ("list", "tup"):
+        # flatten([A, B, C]) == A + B + C
+        out = None
+        for x in t[1][1]:
+            out = x if out is None else simp(("cat", out, x))
+        return out if out is not None else ("list", ())
     if h == "cat":
         a, b = t[1], t[2]
         if a[0] == "list" and b[0] == "list":
@@ -277,17 +313,18 @@ def deep_simp(t):
             return deep_simp(("ite", new[1][1], ("truthy", new[1][2]), ("truthy", new[1][3])))
         if new[0] == "ite" and new[2] == new[3]:
             return new[2]
-        if new[0] == "ite" and new[1] == TRUE:
+        if new[0] == "ite" and _is_bool(new[1], True):
             return new[2]
-        if new[0] == "ite" and new[1] == FALSE:
+        if new[0] == "ite" and _is_bool(new[1], False):
             return new[3]
-        if new[0] == "ite" and new[2] == TRUE and new[3] == FALSE:
+        if new[0] == "ite" and _is_bool(new[2], True) and _is_bool(new[3], False):
             return new[1]
         if new[0] in ("and", "or"):
-            neutral, absorbing = (TRUE, FALSE) if new[0] == "and" else (FALSE, TRUE)
-            items = [x for x in new[1] if x != neutral]
-            if absorbing in items:
-                return absorbing
+            neutral, absorbing = (True, False) if new[0] == "and" else (False, True)
+            items = [x for x in new[1] if not _is_bool(x, neutral)]
+            if any(_is_bool(x, absorbing) for x in items):
+                return C(absorbing)
+            neutral = C(neutral)
             if not items:
                 return neutral
             if len(items) == 1:
@@ -820,7 +857,7 @@ class SymX:
             if isinstance(g1.target, ast.Name) and isinstance(g2.iter, ast.Name) and g2.iter.id == g1.target.id \
                     and isinstance(g2.target, ast.Name) and isinstance(e.elt, ast.Name) and e.elt.id == g2.target.id \
                     and not g1.ifs and not g2.ifs:
-                return ("flatten", self.expr(g1.iter, st, f, depth))
+                return simp(("flatten", self.expr(g1.iter, st, f, depth)))
         if len(e.generators) >= 2 and isinstance(e, (ast.ListComp, ast.GeneratorExp)):
             # [E for a in A for b in B] == flatten([[E for b in B] for a in A])
             inner = type(e)(elt=e.elt, generators=e.generators[1:])
@@ -829,7 +866,7 @@ class SymX:
                 ast.copy_location(n, e)
             inner.parent = outer
             outer.parent = getattr(e, "parent", None)
-            return ("flatten", self.comprehension(outer, st, f, depth))
+            return simp(("flatten", self.comprehension(outer, st, f, depth)))
         if len(e.generators) != 1:
             raise Unsupported("nested comprehension generators")
         gen = e.generators[0]
@@ -838,6 +875,26 @@ class SymX:
         loop.ckind = {ast.ListComp: "list", ast.GeneratorExp: "gen", ast.SetComp: "set"}.get(type(e), "dict")
         inner = st.copy()
         loop.source = self._iter_source(gen.iter, st, f, depth, loop)
+        if loop.source[0] in ("tup", "list") and len(loop.source[1]) <= 16 and loop.whole and not loop.enumerated:
+            # a comprehension over a literal sequence is written out element by element
+            items, okx = [], True
+            for el in loop.source[1]:
+                sub = st.copy()
+                self.assign(gen.target, el, sub, f, depth)
+                conds = [self.truth(self.expr(c, sub, f, depth)) for c in gen.ifs]
+                if any(c not in (TRUE, FALSE) for c in conds):
+                    okx = False
+                    break
+                if all(c == TRUE for c in conds):
+                    if isinstance(e, ast.DictComp):
+                        items.append((self.expr(e.key, sub, f, depth), self.expr(e.value, sub, f, depth)))
+                    else:
+                        items.append(self.expr(e.elt, sub, f, depth))
+            if okx:
+                del self.loops[loop.id]
+                if isinstance(e, ast.DictComp):
+                    return ("dict", tuple(items))
+                return ("set" if isinstance(e, ast.SetComp) else "list", tuple(items))
         self._bind_loop_target(gen.target, loop, inner, f, depth)
         loop.filters = [self.truth(self.expr(c, inner, f, depth)) for c in gen.ifs]
         if isinstance(e, ast.DictComp):
@@ -965,9 +1022,18 @@ class SymX:
                     and not self._module_object_modified(f.mod, e.id):
                 # a module-level table of constants and class / function names: ((PLAYER_1, PlayerOne), ...)
                 return self.expr(f.mod.consts[e.id], State(), f, depth)
-            if ok and isinstance(v, dict) and all(isinstance(k_, (int, str)) and isinstance(x, (int, float, str, bool, type(None))) for k_, x in v.items()) \
-                    and not self._module_object_modified(f.mod, e.id):
-                return ("dict", tuple((C(k_), C(x)) for k_, x in v.items()))
+            if ok and isinstance(v, dict) and all(isinstance(k_, (int, str)) for k_ in v) and not self._module_object_modified(f.mod, e.id):
+                def _lit2(x, d=0):
+                    if isinstance(x, (int, float, str, bool, type(None))):
+                        return C(x)
+                    if isinstance(x, (tuple, list)) and d < 3 and len(x) <= 32:
+                        items = [_lit2(y, d + 1) for y in x]
+                        if all(i is not None for i in items):
+                            return ("tup" if isinstance(x, tuple) else "list", tuple(items))
+                    return None
+                vals = [(C(k_), _lit2(x)) for k_, x in v.items()]
+                if all(x is not None for _, x in vals):
+                    return ("dict", tuple(vals))
             return ("v", e.id)
         if isinstance(e, ast.Attribute):
             p = attr_path(e)
@@ -1163,6 +1229,11 @@ class SymX:
                     finally:
                         self.cls_name = saved
             if callees or not isinstance(c.func.value, ast.Name) or c.func.value.id in st.env:
+                return simp(("mcall", recv, c.func.attr, args, kws))
+        if isinstance(c.func, ast.Attribute) and isinstance(c.func.value, ast.Name) and c.func.value.id in f.mod.consts \
+                and c.func.attr in ("get", "index", "count", "keys", "values", "items"):
+            recv = ev(c.func.value)                           # a method of a module-level literal table: TABLE.get(k)
+            if recv[0] in ("dict", "tup", "list"):
                 return simp(("mcall", recv, c.func.attr, args, kws))
         if not isinstance(c.func, (ast.Name, ast.Attribute)):
             fv = ev(c.func)                                   # table[key](...), factory()(...)
